@@ -5,6 +5,7 @@ package harness
 import (
 	"context"
 	"fmt"
+	"sync"
 
 	"github.com/platinummonkey/go-concurrency-limits/core"
 	"github.com/platinummonkey/go-concurrency-limits/strategy"
@@ -51,6 +52,65 @@ type partSUT struct {
 	ids    []string            // sorted object ids
 	order  []string            // registered objects (registration order), from return values
 	tokens map[string][]core.StrategyToken // by bin
+
+	// what the partitions' own predicates saw while a removal evaluated them: the in-flight count of each partition at
+	// the moment it was removed, per removing goroutine; parkTry (if set) is called when an acquirer's context reaches
+	// the predicate of object parkObj
+	remMu     sync.Mutex
+	remCounts map[int64]map[string]int
+	parkObj   string
+	parkTry   func()
+}
+
+type removalMark struct{}
+
+func removalCtx(ctx context.Context) context.Context { return context.WithValue(ctx, removalMark{}, true) }
+
+// watch wraps the predicate of object id: during a removal it notes the partition's in-flight count when it matches.
+func (s *partSUT) watch(id string, inner func(context.Context) bool) func(context.Context) bool {
+	return func(ctx context.Context) bool {
+		r := inner(ctx)
+		if ctx.Value(removalMark{}) != nil {
+			if r {
+				s.remMu.Lock()
+				g := goid()
+				if s.remCounts[g] == nil {
+					s.remCounts[g] = map[string]int{}
+				}
+				s.remCounts[g][id] = s.pobj[id].BusyCount()
+				s.remMu.Unlock()
+			}
+		} else if r && s.parkTry != nil && id == s.parkObj {
+			s.parkTry()
+		}
+		return r
+	}
+}
+
+// removeMatching calls RemovePartitionsMatching and returns which objects were removed and their counts at removal.
+func (s *partSUT) removeMatching(key string) (ok bool, ids J, counts J, gone map[string]bool) {
+	removed, ok := s.pred.RemovePartitionsMatching(removalCtx(keyCtx("predicate", key)))
+	s.remMu.Lock()
+	seen := s.remCounts[goid()]
+	delete(s.remCounts, goid())
+	s.remMu.Unlock()
+	ids, counts, gone = J{}, J{}, map[string]bool{}
+	for _, id := range s.ids {
+		ids[id], counts[id] = false, 0
+	}
+	for _, p := range removed {
+		for _, id := range s.ids {
+			if s.pobj[id] == p {
+				ids[id], gone[id] = true, true
+				c, has := seen[id]
+				if !has {
+					c = -1 // removed without its predicate having been asked
+				}
+				counts[id] = c
+			}
+		}
+	}
+	return ok, ids, counts, gone
 }
 
 func sortedKeys[V any](m map[string]V) []string {
@@ -89,7 +149,7 @@ func multiMatch(keys []string) func(ctx context.Context) bool {
 }
 
 func newPartSUT(cfg partCfg) (*partSUT, error) {
-	s := &partSUT{cfg: cfg, reg: newRecordingRegistry(), tokens: map[string][]core.StrategyToken{},
+	s := &partSUT{cfg: cfg, reg: newRecordingRegistry(), tokens: map[string][]core.StrategyToken{}, remCounts: map[int64]map[string]int{},
 		lobj: map[string]*strategy.LookupPartition{}, pobj: map[string]*strategy.PredicatePartition{}}
 	s.ids = sortedKeys(cfg.Objs)
 	for _, id := range s.ids {
@@ -103,9 +163,9 @@ func newPartSUT(cfg partCfg) (*partSUT, error) {
 			s.lobj[id] = strategy.NewLookupPartitionWithMetricRegistry(o.Name, pct, int32(built), s.reg)
 		} else {
 			if len(o.Match) == 1 {
-				s.pobj[id] = strategy.NewPredicatePartitionWithMetricRegistry(id, pct, matchers.StringPredicateMatcher(o.Match[0], false), s.reg)
+				s.pobj[id] = strategy.NewPredicatePartitionWithMetricRegistry(id, pct, s.watch(id, matchers.StringPredicateMatcher(o.Match[0], false)), s.reg)
 			} else {
-				s.pobj[id] = strategy.NewPredicatePartitionWithMetricRegistry(id, pct, multiMatch(o.Match), s.reg)
+				s.pobj[id] = strategy.NewPredicatePartitionWithMetricRegistry(id, pct, s.watch(id, multiMatch(o.Match)), s.reg)
 			}
 		}
 	}
@@ -252,20 +312,7 @@ func (s *partSUT) apply(op partOp) (res J, err error) {
 			}
 			return J{"ok": ok, "busy": busy}, nil
 		}
-		removed, ok := s.pred.RemovePartitionsMatching(keyCtx("predicate", op.Key))
-		ids := J{}
-		gone := map[string]bool{}
-		for _, id := range s.ids {
-			ids[id] = false
-		}
-		for _, p := range removed {
-			for _, id := range s.ids {
-				if s.pobj[id] == p {
-					ids[id] = true
-					gone[id] = true
-				}
-			}
-		}
+		ok, ids, counts, gone := s.removeMatching(op.Key)
 		var keep []string
 		for _, id := range s.order {
 			if !gone[id] {
@@ -273,7 +320,7 @@ func (s *partSUT) apply(op partOp) (res J, err error) {
 			}
 		}
 		s.order = keep
-		return J{"ok": ok, "removed": ids}, nil
+		return J{"ok": ok, "removed": ids, "counts": counts}, nil
 	}
 	return nil, fmt.Errorf("unknown op %q", op.Op)
 }
